@@ -464,3 +464,54 @@ def enumerate_columns():
                     [("union all", (select([item(col("b", "s")), item(col("a", "s"))],
                                            [from_expr(derived(select([item(col("a")), item(col("b"))], [from_expr(table("t2"))]), "s"))]), False))])
     yield ("alias_reuse/union_branches", ["insert", "into", False, ["tgt"], None, swapped, False])
+
+
+# ------------------------------------------------------------------------------------------ UPDATE / MERGE families
+def enumerate_dml():
+    """UPDATE (ansi `UPDATE t SET .. FROM ..`) and MERGE statements: target/source forms x SET / VALUES forms"""
+    srcs = [
+        ("table", ["table", ["s1", "src"], "y"], "y"),
+        ("table_noalias", ["table", ["src"], None], "src"),
+        ("derived", ["derived", select([item(col("a")), item(col("b")), item(col("c"))], [from_expr(table("t2", "s1"))]), "y"], "y"),
+        ("derived_join", ["derived", select([item(col("a", "p")), item(col("b", "q"))],
+                                              [from_expr(table("t2", None, "p"), [join(table("t3", None, "q"), eq(col("k", "p"), col("k", "q")))])]), "y"], "y"),
+    ]
+    for sn, src, q in srcs:
+        on = eq(col("a", "x"), col("a", q))
+        ups = [
+            ("col", [[["b"], col("b", q)]]),
+            ("two", [[["b"], col("b", q)], [["c"], col("c", q)]]),
+            ("expr", [[["b"], ["bin", "+", col("b", q), lit("1")]], [["c"], col("c", q)]]),
+            ("unqual", [[["b"], col("b")]]),
+        ]
+        ins = [
+            ("match", [[["a"], ["b"]], [col("a", q), col("b", q)]]),
+            ("lit", [[["a"], ["b"], ["c"]], [col("a", q), lit("1"), ["bin", "+", col("c", q), col("d", q)]]]),
+            ("func_shift", [[["a"], ["b"], ["c"]], [col("a", q), func("coalesce", [col("b", q), lit("0")]), col("c", q)]]),
+        ]
+        for un, u in ups:
+            yield (f"merge/{sn}/upd_{un}", ["merge", ["tgt"], "x", src, on, [u], []])
+        for iname, i in ins:
+            yield (f"merge/{sn}/ins_{iname}", ["merge", ["s2", "tgt"], "x", src, on, [], [i]])
+        yield (f"merge/{sn}/both", ["merge", ["tgt"], "x", src, on, [ups[1][1]], [ins[0][1]]])
+    froms = [
+        ("none", []),
+        ("one", [from_expr(table("src", "s1", "y"))]),
+        ("join", [from_expr(table("src", None, "y"), [join(table("t3"), eq(col("k", "y"), col("k", "t3")))])]),
+        ("comma", [from_expr(table("src", None, "y")), from_expr(table("t3", "s2"))]),
+        ("derived", [from_expr(derived(select([item(col("a")), item(col("b"))], [from_expr(table("t4"))]), "y"))]),
+    ]
+    for fn, frm in froms:
+        q = "y" if frm else None
+        sets = [
+            ("col", [[["b"], col("b", q) if q else col("c")]]),
+            ("two", [[["b"], col("b", q) if q else col("c")], [["c"], col("d")]]),
+            ("expr", [[["b"], ["bin", "+", col("b", q) if q else col("c"), lit("1")]]]),
+            ("lit", [[["b"], lit("1")]]),
+        ]
+        for sname, st in sets:
+            wh = ["bin", "=", col("a", "tgt"), col("a", q)] if q else None
+            yield (f"update/{fn}/{sname}", ["update", ["tgt"], None, st, frm, wh])
+        if frm:
+            yield (f"update/{fn}/where_subq", ["update", ["s1", "tgt"], None, sets[0][1], frm,
+                                                ["in", col("a", "tgt"), False, select([item(col("a"))], [from_expr(table("t5"))])]])
